@@ -14,7 +14,7 @@ PROPERTY = "C08"
 LEVEL = "exploration"
 RULE = (
     "Hypothesis channelisations (fch1 in [100,3000] MHz, foff of either sign, mostly not exactly representable: 0.1, "
-    "1/3, 0.3, 0.39, random) x layouts (depth in {1,2,4,8,32}, 1-2 files) x (start,nsamps) incl. start>0 x every API "
+    "1/3, 0.3, 0.39, random) x layouts (depth in {1,2,4,8,32}, 1-2 files) x tsamp in {1e-3, 64e-6, 327e-6, 2^-10} x start epochs x (start,nsamps) incl. start>0 x every API "
     "returning a container or writing a file: readers (read_block incl. selection by channel label, "
     "read_dedisp_block, collapse, dedisperse, read_chan, bandpass), files (invert_freq, apply_channel_mask, "
     "downsample, extract_samps/chans/bands, subband, remove_zerodm), blocks (FilterbankBlock.dedisperse/downsample/"
@@ -76,7 +76,10 @@ def strat_case(draw, tier, descending=False, min_chans=1):
     eff = n - start if nsamps is None else nsamps
     gulp = draw(st.integers(1, eff + 3))
     return {"layout": lay, "fch1": ch["fch1"], "foff": ch["foff"], "start": start, "nsamps": nsamps, "gulp": gulp,
-            "prior": draw(vs.prior_use(n))}
+            "prior": draw(vs.prior_use(n)),
+            # sampling interval and start epoch (none on a leap-second day, where a UTC MJD day is 86401 s long)
+            "tsamp": draw(st.sampled_from([1e-3, 1e-3, 64e-6, 0.000327, 2.0**-10])),
+            "tstart": draw(st.sampled_from([55000.25, 55000.25, 40587.0, 59215.99999, 51544.5, 60000.000011574]))}
 
 
 class S:
@@ -87,7 +90,8 @@ class S:
         self.lay = case["layout"]
         self.dir = ctx.fresh_dir()
         self.fch1, self.foff = case["fch1"], case["foff"]
-        self.paths, self.D, _, _ = vs.write_layout(self.lay, self.dir, fch1=self.fch1, foff=self.foff, tsamp=TSAMP, tstart=TSTART)
+        self.tsamp, self.tstart = case.get("tsamp", TSAMP), case.get("tstart", TSTART)
+        self.paths, self.D, _, _ = vs.write_layout(self.lay, self.dir, fch1=self.fch1, foff=self.foff, tsamp=self.tsamp, tstart=self.tstart)
         self.N, self.nchans = self.D.shape
         self.nbits = self.lay["nbits"]
         self.start, self.nsamps, self.gulp = case["start"], case["nsamps"], case["gulp"]
@@ -97,7 +101,7 @@ class S:
         self.kw = {"gulp": self.gulp, "start": self.start, "nsamps": self.nsamps, "quiet": True, "description": "v"}
         self.labels_in = self.fch1 + np.arange(self.nchans) * self.foff
         self.ctxt = (f"fch1={self.fch1!r} foff={self.foff!r} nchans={self.nchans} nbits={self.nbits} N={self.N} "
-                     f"start={self.start} nsamps={self.nsamps} gulp={self.gulp}")
+                     f"start={self.start} nsamps={self.nsamps} gulp={self.gulp} tsamp={self.tsamp!r} tstart={self.tstart!r}")
         self.nontrivial = self.start > 0 or float(np.float32(self.foff)) != self.foff
         self.labels = ["start>0"] if self.start > 0 else []
         self.labels.append("ascending" if self.foff > 0 else "descending")
@@ -114,7 +118,7 @@ class S:
             raise Violation(f"{name}:raised:{type(exc).__name__}", f"{self.ctxt}: {exc!r}") from exc
 
     def tstart_ok(self, name, tstart, start):
-        want = TSTART + start * TSAMP / 86400.0
+        want = self.tstart + start * self.tsamp / 86400.0
         if abs(tstart - want) * 86400.0 > 5e-6:
             raise Violation(f"{name}:tstart", f"{self.ctxt}: tstart={tstart!r}, input advanced by {start} samples is {want!r} "
                             f"(off by {(tstart - want) * 86400.0:.6g} s)")
@@ -147,7 +151,7 @@ class S:
         require(h.get("nchans") == nchans_out, f"{name}:nchans", f"{self.ctxt}: {h.get('nchans')} != {nchans_out}")
         hd = self.call(name, lambda: FilReader(path).header if nchans_out * nbits_out % 8 == 0 else None)
         require(hd.nsamples == rows, f"{name}:nsamples", f"{self.ctxt}: header {hd.nsamples}, data {rows}")
-        want_ts = TSAMP * tfactor
+        want_ts = self.tsamp * tfactor
         require(hd.tsamp == want_ts, f"{name}:tsamp", f"{self.ctxt}: {hd.tsamp!r} != {want_ts!r}")
         self.tstart_ok(name, hd.tstart, self.start if start is None else start)
         self.labels_ok(name, hd.fch1, hd.foff, nchans_out, src)
@@ -172,7 +176,7 @@ def check_readers(case, ctx):
             f"{s.ctxt}: data {blk.data.shape} header ({h.nchans},{h.nsamples})")
     s.tstart_ok("read_block", h.tstart, s.start)
     s.labels_ok("read_block", h.fch1, h.foff, s.nchans, ident(s.nchans))
-    require(h.tsamp == TSAMP, "read_block:tsamp")
+    require(h.tsamp == s.tsamp, "read_block:tsamp")
     # selection by label
     k = case["sel_k"] % s.nchans
     n = 1 + case["sel_n"] % (s.nchans - k)
@@ -199,7 +203,7 @@ def check_readers(case, ctx):
     require(ts.header.nsamples == ts.data.size == s.eff and ts.header.nchans == 1, "collapse:shape", s.ctxt)
     s.tstart_ok("collapse", ts.header.tstart, s.start)
     s.labels_ok("collapse", ts.header.fch1, ts.header.foff, 1, [list(range(s.nchans))])
-    require(ts.header.tsamp == TSAMP and ts.header.dm == 0, "collapse:tsamp-dm")
+    require(ts.header.tsamp == s.tsamp and ts.header.dm == 0, "collapse:tsamp-dm")
     c = case["sel_k"] % s.nchans
     rc = s.call("read_chan", lambda: rd.read_chan(c, **s.kw))
     require(rc.header.nsamples == rc.data.size == s.eff and rc.header.nchans == 1, "read_chan:shape", s.ctxt)
@@ -212,7 +216,7 @@ def check_readers(case, ctx):
         f = 1 + case["sel_n"] % min(4, s.eff)
         d2 = s.call("TimeSeries.downsample", lambda: ts.downsample(f))
         require(d2.header.nsamples == d2.data.size == s.eff // f, "TimeSeries.downsample:nsamples", f"{s.ctxt} f={f}")
-        require(d2.header.tsamp == TSAMP * f, "TimeSeries.downsample:tsamp", f"{s.ctxt} f={f}: {d2.header.tsamp!r}")
+        require(d2.header.tsamp == s.tsamp * f, "TimeSeries.downsample:tsamp", f"{s.ctxt} f={f}: {d2.header.tsamp!r}")
         s.tstart_ok("TimeSeries.downsample", d2.header.tstart, s.start)
         pd = s.call("TimeSeries.pad", lambda: ts.pad(3))
         require(pd.header.nsamples == pd.data.size == s.eff + 3, "TimeSeries.pad:nsamples", s.ctxt)
@@ -243,7 +247,7 @@ def check_dedisp(case, ctx):
     rd = s.rd
     flo = s.fch1 + (s.nchans - 1) * s.foff
     md_t = min(case["md_target"], max(0, s.eff // 2 - 1))
-    dm = 0.0 if md_t == 0 else md_t * TSAMP / (KDM * (flo**-2 - s.fch1**-2))
+    dm = 0.0 if md_t == 0 else md_t * s.tsamp / (KDM * (flo**-2 - s.fch1**-2))
     delays = np.asarray(rd.header.get_dmdelays(dm)).reshape(-1)
     md = int(delays.max())
     if delays.min() < 0 or md >= s.eff:
@@ -348,7 +352,7 @@ def check_files(case, ctx):
         require(h.nsamples == s.eff and h.nchans == 1, "extract_chans:shape", f"{s.ctxt}: {h.nsamples},{h.nchans}")
         s.tstart_ok("extract_chans", h.tstart, s.start)
         s.labels_ok("extract_chans", h.fch1, h.foff, 1, [[ch]])
-        require(h.tsamp == TSAMP, "extract_chans:tsamp")
+        require(h.tsamp == s.tsamp, "extract_chans:tsamp")
     if any(c > 0 for c in chans):
         lab.append("selection_offset>0")
     return Info(s.nontrivial or tf * ff > 1 or cs > 0 or any(c > 0 for c in chans), tuple(lab))
@@ -390,7 +394,7 @@ def check_blocks(case, ctx):
     ds = s.call("block.downsample", lambda: blk.downsample(ffactor=ff, tfactor=tf))
     require(ds.data.shape == (n // ff, s.eff // tf) and ds.header.nsamples == s.eff // tf and ds.header.nchans == n // ff,
             "block.downsample:shape", f"{s.ctxt} tf={tf} ff={ff}: data {ds.data.shape} header ({ds.header.nchans},{ds.header.nsamples})")
-    require(ds.header.tsamp == TSAMP * tf, "block.downsample:tsamp", f"{ds.header.tsamp!r}")
+    require(ds.header.tsamp == s.tsamp * tf, "block.downsample:tsamp", f"{ds.header.tsamp!r}")
     s.labels_ok("block.downsample", ds.header.fch1, ds.header.foff, n // ff, [list(range(j * ff, (j + 1) * ff)) for j in range(n // ff)])
     s.tstart_ok("block.downsample", ds.header.tstart, s.start)
     if tf * ff > 1:
@@ -472,7 +476,7 @@ def check_chains(case, ctx):
                     f"{where}: data {data.shape}, header ({h.nchans},{h.nsamples}), defined nchans {nch_want}")
         else:
             require(data.shape == (h.nsamples,) and h.nchans == 1, f"{name}:shape", f"{where}: data {data.shape}, header ({h.nchans},{h.nsamples})")
-        want_ts = TSAMP * tf_cum
+        want_ts = s.tsamp * tf_cum
         require(abs(h.tsamp - want_ts) <= 1e-12 * want_ts, f"{name}:tsamp", f"{where}: tsamp {h.tsamp!r}, input x {tf_cum} = {want_ts!r}")
         s.tstart_ok(name, h.tstart, s.start)
         s.labels_ok(name, h.fch1, h.foff, nch_want, groups)
@@ -552,7 +556,7 @@ def check_chains(case, ctx):
     pf = sigfile.parse_file(o)
     h = pf["hdr"]
     require(h.get("nbits") == 32 and (pf["size"] - pf["hdrlen"]) == 4 * ts.data.size, "chain:to_tim:width", f"{s.ctxt} {steps}")
-    want_ts = TSAMP * tf_cum
+    want_ts = s.tsamp * tf_cum
     require(abs(h.get("tsamp") - want_ts) <= 1e-12 * want_ts, "chain:to_tim:tsamp", f"{s.ctxt} {steps}: {h.get('tsamp')!r}")
     s.tstart_ok("chain:to_tim", h.get("tstart"), s.start)
     if abs(h.get("refdm", 0.0) - dm_applied) > 1e-9 * max(1.0, abs(dm_applied)):
